@@ -7,6 +7,7 @@ import (
 	"fmt"
 	"io"
 	"net/http"
+	"os"
 	"path/filepath"
 	"sort"
 	"strings"
@@ -44,6 +45,8 @@ type ListParams struct {
 	// disk operation of that Delete - they all belong to its index save - fails: the Delete is
 	// refused and no listing may miss a tag because of it
 	DeleteFail int `json:"delete_fail,omitempty"`
+	// Reopen (ocitags): the listing that is judged comes from a store opened afresh on the directory ("new", "fs")
+	Reopen string `json:"reopen,omitempty"`
 }
 
 type listProp struct{}
@@ -128,6 +131,9 @@ func (p *listProp) Gen(r *Rand, tier string, idx int) any {
 		if r.Bool() {
 			lp.FailWith = pick(r, []string{"not-found", "not-found", "already-exists", "unsupported", "size-exceeds", "eof"})
 		}
+	}
+	if lp.Kind == "ocitags" && r.Chance(0.4) {
+		lp.Reopen = pick(r, []string{"new", "fs"})
 	}
 	if lp.Kind == "ocitags" && len(lp.Items) > 0 && r.Chance(0.5) {
 		lp.Listers = r.Range(1, 2)
@@ -443,7 +449,29 @@ func (p *listProp) run(rc *RunCtx, lp *ListParams, info *RunInfo) *Verdict {
 			if ociErr != nil {
 				return
 			}
-			callErr = s.Tags(ctx, lp.Last, fn)
+			var lister interface {
+				Tags(ctx context.Context, last string, fn func(tags []string) error) error
+			} = s
+			switch lp.Reopen {
+			case "new":
+				// another process opens the directory: all the names of the one blob are there
+				s2, err := oci.New(filepath.Join(rc.DiskDir, "layout"))
+				if err != nil {
+					ociErr = err
+					return
+				}
+				lister = s2
+				info.Probes["oci_listing_after_reopen"]++
+			case "fs":
+				s2, err := oci.NewFromFS(ctx, os.DirFS(filepath.Join(rc.DiskDir, "layout")))
+				if err != nil {
+					ociErr = err
+					return
+				}
+				lister = s2
+				info.Probes["oci_listing_after_reopen"]++
+			}
+			callErr = lister.Tags(ctx, lp.Last, fn)
 		}
 	}
 	rc.MaxSteps = 4000 // a listing that needs more exchanges than this is looping
